@@ -25,7 +25,9 @@ structure St where
   readTimeout : Nat
   wd : WdState := .waiting
   hasTx : Bool := true          -- the reader still holds its sender
-  queued : Nat := 0             -- bytes received and not yet read
+  queued : Nat := 0             -- bytes received by the kernel and not yet read from the socket
+  buffered : Nat := 0           -- bytes sitting in the BufReader in front of the socket
+  bufCap : Nat := 8192          -- its capacity
   peerClosed : Bool := false
   shut : Bool := false          -- shutdown(Both) executed by the watchdog
   deriving Repr, DecidableEq
@@ -58,9 +60,15 @@ def ping (s : St) : Bool × St :=
 /-- `read_timeout(stream, buf, timeout)` with a non-empty buffer of `n` bytes at the current time -/
 def read (s : St) (n : Nat) : RdOut × St :=
   let s := fireIfDue s
-  if s.queued > 0 then
-    let k := min n s.queued
-    (.data k, { s with queued := s.queued - k })
+  if s.buffered > 0 then
+    -- served from the BufReader without touching the socket
+    let k := min n s.buffered
+    (.data k, { s with buffered := s.buffered - k })
+  else if s.queued > 0 then
+    -- one socket read of up to `bufCap` bytes into the BufReader (or straight into a large caller buffer)
+    let got := min (max n s.bufCap) s.queued
+    let k := min n got
+    (.data k, { s with queued := s.queued - got, buffered := if n < s.bufCap then got - k else 0 })
   else if s.peerClosed ∨ s.shut then
     -- the OS read returns 0
     if s.hasTx then
